@@ -516,15 +516,21 @@ Kinds == {"lock", "slock", "ack", "fail", "unlock", "sunlock", "mktemp", "write"
           "renamesubs", "rmsubs", "trunc", "writeul", "creat", "fsync", "utime", "link", "rmtmp",
           "claim", "renflag", "mvmsg", "rmmsg", "mkdir", "mark", "rendir"}
 
+UidRange == 1..(3 * MaxMsgs + 2)
+
 Begin ==
   \/ BLogin
-  \/ \E f \in Names : \/ \E fl \in AppendFlags : BAppend(f, fl)
-                      \/ BSelect(f) \/ BExpunge(f) \/ BCheck(f) \/ BCreate(f)
-                      \/ BSub(f, TRUE) \/ BSub(f, FALSE)
-                      \/ \E g \in Names : BRename(f, g)
-                      \/ \E a \in acked :
-                            \/ \E mode \in {"add", "del"}, flag \in FlagSet : BStore(f, a.uid, mode, flag)
-                            \/ \E g \in Names : BCopy(f, a.uid, g) \/ BMove(f, a.uid, g)
+  \/ \E f \in Names, fl \in AppendFlags : BAppend(f, fl)
+  \/ \E f \in Names : BSelect(f)
+  \/ \E f \in Names : BExpunge(f)
+  \/ \E f \in Names : BCheck(f)
+  \/ \E f \in Names : BCreate(f)
+  \/ \E f \in Names, on \in BOOLEAN : BSub(f, on)
+  \/ \E f \in Names, g \in Names : BRename(f, g)
+  \/ \E f \in Names, uid \in UidRange, mode \in {"add", "del"}, flag \in FlagSet :
+        BStore(f, uid, mode, flag)
+  \/ \E f \in Names, uid \in UidRange, g \in Names : BCopy(f, uid, g)
+  \/ \E f \in Names, uid \in UidRange, g \in Names : BMove(f, uid, g)
 
 Next == Begin \/ (\E k \in Kinds : Step(k)) \/ Crash \/ Restart
 
